@@ -114,6 +114,20 @@ def run(prop_id, cs, Cm):
         for i, o in zip(again, Cm.run_lines(binary, [lines[i] for i in again], shards=2, env=dict(Cm.ENV, VERIF_NET_WATCHDOG="60"))):
             outs[i] = o
     bad = 0
+    # one reply, one outcome: the observation (outcome, and for poll sessions the number of polls and every wait) is the same
+    # through every adapter and through the blocking and the future-based twin
+    groups = {}
+    for l, o in zip(lines, outs):
+        ws = l.split(" ")
+        if o.startswith("same "):
+            groups.setdefault((ws[2].replace("_async", ""),) + tuple(ws[3:]), {})[ws[1] + "/" + ws[2]] = o[5:]
+    for key, g in groups.items():
+        if len(set(g.values())) > 1:
+            bad += 1
+            if bad <= 2:
+                path = Cm.write_replay(prop_id, {"property": prop_id, "case": "NETSAME <adapter> " + " ".join(key)[:3000], "variants": {k: v[:1500] for k, v in g.items()},
+                                                 "clause": "the same reply gives the same outcome (polls and waits included) through every adapter and through the blocking and the future-based call"})
+                print("VIOLATION property=%s replay=%s" % (prop_id, os.path.relpath(path, Cm.VERIF)))
     for l, o in zip(lines, outs):
         if o == "BADCASE":
             raise RuntimeError("machinery error on %r" % l[:200])
